@@ -177,6 +177,14 @@ func simpleOp(name string, code byte, reply any, call func(u uhppote.IUHPPOTE, d
 var cardNumbers = []uint32{0, 1, 0x00ffffff, 0xffffffff, 8165538, 6154412, 99999, 100000, 25565535, 25565536, 25600000, 25599999,
 	65535, 65536, 100000000, 255000001, 1000000000, 4294967295, 42949672, 16777215, 16777216, 99999999, 10058400}
 
+// a number that agrees with one of the reserved card numbers in all but one byte (0x01ffffff,
+// 0xffffff00, 0x00ff00ff, 0x00000100 ...): what a masked or partial comparison would confuse
+func nearSentinel(r *rng.R) uint32 {
+	s := rng.Pick(r, uint32(0), 0xffffffff, 0x00ffffff)
+	k := uint(r.Intn(4)) * 8
+	return (s &^ (0xff << k)) | uint32(r.U8())<<k
+}
+
 var opDefs = []opDef{
 	{name: "GetDevice", code: 0x94, reply: messages.GetDeviceResponse{}, gen: func(r *rng.R, dev uint32, wild bool) ([]string, func(u uhppote.IUHPPOTE) string) {
 		return nil, func(u uhppote.IUHPPOTE) string {
@@ -322,7 +330,7 @@ var opDefs = []opDef{
 		}
 	}},
 	{name: "GetCardByID", code: 0x5a, reply: messages.GetCardByIDResponse{}, gen: func(r *rng.R, dev uint32, wild bool) ([]string, func(u uhppote.IUHPPOTE) string) {
-		id := rng.Pick(r, cardNumbers[r.Intn(len(cardNumbers))], r.U32())
+		id := rng.Pick(r, cardNumbers[r.Intn(len(cardNumbers))], r.U32(), nearSentinel(r))
 		return []string{fmt.Sprintf("u32:%d", id)}, func(u uhppote.IUHPPOTE) string {
 			c, err := u.GetCardByID(dev, id)
 			if err != nil {
@@ -336,7 +344,9 @@ var opDefs = []opDef{
 	}},
 	{name: "PutCard", code: 0x50, reply: messages.PutCardResponse{}, gen: func(r *rng.R, dev uint32, wild bool) ([]string, func(u uhppote.IUHPPOTE) string) {
 		card := r.U32()
-		switch r.Intn(4) {
+		switch r.Intn(5) {
+		case 4:
+			card = nearSentinel(r)
 		case 0:
 			card = cardNumbers[r.Intn(len(cardNumbers))]
 		case 1: // around the Wiegand-26 boundaries
@@ -365,7 +375,7 @@ var opDefs = []opDef{
 		}
 	}},
 	{name: "DeleteCard", code: 0x52, reply: messages.DeleteCardResponse{}, gen: func(r *rng.R, dev uint32, wild bool) ([]string, func(u uhppote.IUHPPOTE) string) {
-		card := rng.Pick(r, cardNumbers[r.Intn(len(cardNumbers))], r.U32())
+		card := rng.Pick(r, cardNumbers[r.Intn(len(cardNumbers))], r.U32(), nearSentinel(r))
 		return []string{fmt.Sprintf("u32:%d", card)}, func(u uhppote.IUHPPOTE) string { return boolRes(u.DeleteCard(dev, card)) }
 	}},
 	simpleOp("DeleteCards", 0x54, messages.DeleteCardsResponse{}, func(u uhppote.IUHPPOTE, dev uint32) (bool, error) { return u.DeleteCards(dev) }),
@@ -740,6 +750,30 @@ func genArrivals(r *rng.R, op opDef, dev uint32, focus string) ([][]byte, string
 func runOp(c *ctx, u uhppote.IUHPPOTE, d *fake.Driver, g cfgGen, op opDef, dev uint32, wild bool, arrivals [][]byte, tags ...string) {
 	r := c.r
 	argToks, invoke := op.gen(r, dev, wild)
+	// replies that echo an argument (profile id, card number): most of the time make the echo match,
+	// otherwise nearly every reply of these operations ends in the "wrong echo" error branch and the
+	// mapping of the remaining fields is never reached
+	if len(argToks) > 0 && r.Chance(3, 4) {
+		var n uint64
+		switch op.name {
+		case "GetTimeProfile":
+			if _, err := fmt.Sscanf(argToks[0], "u8:%d", &n); err == nil && n != 0 {
+				for _, a := range arrivals {
+					if len(a) == 64 && a[1] == 0x98 {
+						a[8] = byte(n)
+					}
+				}
+			}
+		case "GetCardByID":
+			if _, err := fmt.Sscanf(argToks[0], "u32:%d", &n); err == nil && n != 0 {
+				for _, a := range arrivals {
+					if len(a) == 64 && a[1] == 0x5a {
+						a[8], a[9], a[10], a[11] = byte(n), byte(n>>8), byte(n>>16), byte(n>>24)
+					}
+				}
+			}
+		}
+	}
 	d.Calls = nil
 	d.Datagrams = arrivals
 	d.Consumed = 0
